@@ -350,6 +350,24 @@ def setStart (tbl : List OptionRow) (o : Nat → Val IsoClass) (ast : Val IsoCla
   | some i => setField o i ast
   | none => o
 
+/-- `MAX_LICENSE_URL_LENGTH`: the longest license URL a PlayReady Object can carry -/
+def maxLicenseUrlLength : Nat := 4096
+
+/-- `check_license_url` on the registered `<drm>__la_url` options (part of
+`check_option_values`) -/
+def licenseUrlsOk (tbl : List OptionRow) (o : Nat → Val IsoClass) : Bool :=
+  ["clearkey__la_url", "marlin__la_url", "playready__la_url"].all fun n =>
+    match field tbl o n with
+    | .str s => decide (s.length ≤ maxLicenseUrlLength)
+    | _ => true
+
+/-- `check_license_url` on the raw `<drm>_la_url` request parameters `DrmContext` reads
+itself (before the conversion) -/
+def rawLicenseUrlsOk (q : List (Bytes × Bytes)) : Bool :=
+  q.all fun kv =>
+    !(["clearkey_la_url", "marlin_la_url", "playready_la_url"].map ascii).contains kv.1 ||
+      decide (kv.2.length ≤ maxLicenseUrlLength)
+
 /-- `check_option_values`; every refusal is a `ValueError` -/
 def checkValues (tbl : List OptionRow) (dfltAst : Val IsoClass) (o : Nat → Val IsoClass) :
     Except Exc (Nat → Val IsoClass) :=
@@ -367,12 +385,16 @@ def checkValues (tbl : List OptionRow) (dfltAst : Val IsoClass) (o : Nat → Val
       else .ok (setStart tbl o ast)
 
 /-- `RequestHandlerBase.calculate_options` without restrictions (as `UTCTimeHandler`,
-`LiveMedia`, `ServeMps*` call it): convert, then check -/
+`LiveMedia`, `ServeMps*` call it): the raw license URL parameters, convert, then check
+(the registered license URL options, then `check_option_values`) -/
 def calcOptions (tbl : List OptionRow) (dflt : Nat → Val IsoClass) (q : List (Bytes × Bytes)) :
     Except Exc (Nat → Val IsoClass) :=
+  bif !rawLicenseUrlsOk q then .error .valueError else
   match convertX C tbl dflt q with
   | .error e => .error e
-  | .ok o => checkValues C tbl (field tbl dflt "start") o
+  | .ok o =>
+    bif !licenseUrlsOk tbl o then .error .valueError
+    else checkValues C tbl (field tbl dflt "start") o
 
 end check
 
